@@ -201,7 +201,11 @@ def r3_predicates(chk, repo):
     f = repo.func("_fc_in", GENERAL)
     ifs = [n for n in walk_body(f.node) if isinstance(n, ast.If) and any(isinstance(x, ast.Assign) and "result[" in norm(x.targets[0]) for x in n.body)]
     chk.need(len(ifs) == 1, "C17.R3: containment test of _fc_in not found")
-    symmap = {"a_starts[a_i]": "ts", "a_ends[a_i]": "te", "b_starts[b_i]": "cs", "b_ends[b_i]": "ce"}
+    roles = dict(zip(f.params[:4], ["ts", "cs", "te", "ce"]))  # (a_starts, b_starts, a_ends, b_ends)
+    symmap = {}
+    for x in walk_body(f.node):
+        if isinstance(x, ast.Subscript) and isinstance(x.value, ast.Name) and x.value.id in roles and isinstance(x.slice, ast.Name):
+            symmap[norm(x)] = roles[x.value.id]
     syms = ["ts", "te", "cs", "ce"]
     ident = {s: s for s in syms}
     try:
@@ -228,15 +232,36 @@ def r3_predicates(chk, repo):
     right = [l for l in loops if "right_i" in norm(l.test)][0]
     lc = [c for c in left.test.values if isinstance(c, ast.Compare) and "thing_end" in norm(c)][0]
     rc = [c for c in right.test.values if isinstance(c, ast.Compare) and "thing_start" in norm(c)][0]
-    nl, bl = compare_predicates(["te", "lo"], None, lc, parse_pred("not (lo < te)"), {"thing_end[left_i]": "te", "t0 - window": "lo"}, {"te": "te", "lo": "lo"})
-    nr, br = compare_predicates(["ts", "hi"], None, rc, parse_pred("ts < hi"), {"thing_start[right_i]": "ts", "t1 + window": "hi"}, {"ts": "ts", "hi": "hi"})
+    def _sm(cmp_, arr, sym, other):
+        m = {}
+        for side in (cmp_.left, cmp_.comparators[0]):
+            if isinstance(side, ast.Subscript) and norm(side.value) == arr:
+                m[norm(side)] = sym
+            else:
+                m[norm(side)] = other
+        return m
+    nl, bl = compare_predicates(["te", "lo"], None, lc, parse_pred("not (lo < te)"), _sm(lc, "thing_end", "te", "lo"), {"te": "te", "lo": "lo"})
+    nr, br = compare_predicates(["ts", "hi"], None, rc, parse_pred("ts < hi"), _sm(rc, "thing_start", "ts", "hi"), {"ts": "ts", "hi": "hi"})
+    lo_side = [x for x in (lc.left, lc.comparators[0]) if not (isinstance(x, ast.Subscript) and norm(x.value) == "thing_end")]
+    hi_side = [x for x in (rc.left, rc.comparators[0]) if not (isinstance(x, ast.Subscript) and norm(x.value) == "thing_start")]
+    from ..pattern import pmatch as _pm
+    chk.check(bool(lo_side) and _pm("L_t0 - window", lo_side[0]) is not None and bool(hi_side) and _pm("L_t1 + window", hi_side[0]) is not None, "C17.R3", tw, None, "window is not subtracted from the container start / added to the container end", site_text="_touching_windows: bounds are (t0 - window, t1 + window)")
     chk.check(not bl, "C17.R3", tw, left, "left scan does not skip exactly the things ending at or before (container start - window)", site_text="_touching_windows: skip while thing_end <= t0 - window", site={"function": tw.qualname, "construct": "left scan"})
     chk.check(not br, "C17.R3", tw, right, "right scan does not include exactly the things starting before (container end + window)", site_text="_touching_windows: advance while thing_start < t1 + window", site={"function": tw.qualname, "construct": "right scan"})
-    st = [n for n in walk_body(tw.node) if isinstance(n, ast.Assign) and norm(n.targets[0]).startswith("result[i, ")]
-    chk.check({norm(n.targets[0]) + "=" + norm(n.value) for n in st} == {"result[i, 0]=left_i", "result[i, 1]=right_i"}, "C17.R3", tw, None, "window bounds are not (first touching, one past last touching)", site_text="_touching_windows: result[i] = (left_i, right_i)")
-    d = Defs(tw.node)
-    t1 = d.single("t1")
-    chk.check(t1 is not None and norm(t1) == "container_end[i]" and any(isinstance(n, ast.For) and norm(n.iter) == "container_end_argsort" for n in walk_body(tw.node)), "C17.R3", tw, None, "right bounds are not scanned in order of container end", site_text="_touching_windows: right scan in order of sorted container ends")
+    from ..pattern import find as _pf
+    LI = next((x.id for x in ast.walk(lc) if isinstance(x, ast.Name) and isinstance(getattr(x, "_parent", None), ast.Subscript) and norm(x._parent.value) == "thing_end"), None)
+    RI = next((x.id for x in ast.walk(rc) if isinstance(x, ast.Name) and isinstance(getattr(x, "_parent", None), ast.Subscript) and norm(x._parent.value) == "thing_start"), None)
+    s0 = [(n, b) for n, b in _pf(tw.node, f"L_res[L_i, 0] = {LI}")] if LI else []
+    s1 = [(n, b) for n, b in _pf(tw.node, f"L_res[L_i, 1] = {RI}")] if RI else []
+    okst = len(s0) == 1 and len(s1) == 1 and enclosing(s0[0][0], (ast.For,)) is enclosing(left, (ast.For,)) and enclosing(s1[0][0], (ast.For,)) is enclosing(right, (ast.For,)) and not any(x is s0[0][0] for x in ast.walk(left)) and not any(x is s1[0][0] for x in ast.walk(right))
+    chk.check(okst, "C17.R3", tw, None, "window bounds are not (first touching, one past last touching), stored after each scan", site_text="_touching_windows: result[i] = (left index, right index) after the scans")
+    rloop = enclosing(right, (ast.For,))
+    okord = False
+    if rloop is not None and isinstance(rloop.iter, ast.Name):
+        srt = _pf(tw.node, f"{rloop.iter.id} = stable_argsort(container_end, **___)")
+        t1 = [n for n, b in _pf(tw.node, f"L_t1 = container_end[{norm(rloop.target)}]")]
+        okord = bool(srt) and bool(t1)
+    chk.check(okord, "C17.R3", tw, None, "right bounds are not scanned in order of container end", site_text="_touching_windows: right scan in order of sorted container ends")
 
 
 WITNESSES = [
